@@ -85,17 +85,25 @@ func ruleRecoverInstalled(c *Ctx, rule string) {
 	}
 	for _, key := range []string{"mux.(*Router).serveContext", "mux.(*Group).ServeHTTP"} {
 		f := c.P.MustFunc(key)
-		// the guarded defer
+		// the guarded defer (in the function itself or in a helper it reaches on the same receiver type)
+		fam := []*ssa.Function{f}
+		for fn := range an.NewGraph(c.P).Reach([]*ssa.Function{f}, func(_ *ssa.Function, e an.Edge) bool { return e.Kind == "static" }) {
+			if fn != f && strings.HasPrefix(an.FuncKey(fn), strings.TrimSuffix(key, key[strings.LastIndex(key, "."):])+".") && fn.Parent() == nil {
+				fam = append(fam, fn)
+			}
+		}
 		var defers []ssa.Instruction
-		an.AllInstrs(f, func(in ssa.Instruction) {
-			d, ok := in.(*ssa.Defer)
-			if !ok {
-				return
-			}
-			if mc, ok := d.Call.Value.(*ssa.MakeClosure); ok && isRecClosure[mc.Fn.(*ssa.Function)] {
-				defers = append(defers, in)
-			}
-		})
+		for _, fn := range fam {
+			an.AllInstrs(fn, func(in ssa.Instruction) {
+				d, ok := in.(*ssa.Defer)
+				if !ok {
+					return
+				}
+				if mc, ok := d.Call.Value.(*ssa.MakeClosure); ok && isRecClosure[mc.Fn.(*ssa.Function)] {
+					defers = append(defers, in)
+				}
+			})
+		}
 		if len(defers) == 0 {
 			c.R.Add(rule, key, "deferred-recover/installed", c.P.Pos(f.Pos()), false, "no deferred recover() in "+key+": a configured recovery function is never used on this path")
 			continue
@@ -109,7 +117,9 @@ func ruleRecoverInstalled(c *Ctx, rule string) {
 			return false
 		}
 		// calls that can run user code (directly or below): every call except trivial context accessors
-		an.AllInstrs(f, func(in ssa.Instruction) {
+		for _, fn := range fam {
+		fn := fn
+		an.AllInstrs(fn, func(in ssa.Instruction) {
 			call, ok := in.(*ssa.Call)
 			if !ok {
 				return
@@ -126,12 +136,16 @@ func ruleRecoverInstalled(c *Ctx, rule string) {
 			if !protect {
 				return
 			}
-			path := (&an.Query{Assume: assume, Target: func(t ssa.Instruction) bool { return t == in }, Block: isDefer}).Search(an.Entry(f))
+			if fn != f && (strings.HasSuffix(n, ".serveContext") || strings.HasSuffix(n, ".Handler")) && key == "mux.(*Group).ServeHTTP" {
+				return
+			}
+			path := (&an.Query{Assume: assume, Deep: deepDefault, Target: func(t ssa.Instruction) bool { return t == in }, Block: isDefer}).Search(an.Entry(f))
 			o := c.R.Add(rule, key, "call:"+n+"/after-deferred-recover", c.pos(in), path == nil, ifelse(path == nil, "with a recovery function configured the deferred recover is installed before this call", "with a recovery function configured this call can run before the deferred recover is installed: a panic below it escapes ServeHTTP"))
 			if path != nil {
 				o.Path = c.P.PathString(path)
 			}
 		})
+		}
 		for _, d := range defers {
 			dom := an.DominatedByEdge(d, recoverGuardEdge)
 			c.R.Add(rule, key, "deferred-recover/only-when-configured", c.pos(d), dom, ifelse(dom, "the defer is installed only on the recoverFunc != nil edge", "recover() is installed even without a recovery option: panics no longer reach the caller of ServeHTTP unchanged"))
@@ -244,7 +258,19 @@ func ruleRecoverOptionFlow(c *Ctx, rule string) {
 		an.AllInstrs(f, func(in ssa.Instruction) {
 			if _, field, val, ok := fieldStoreAny(in); ok && field == "recoverFunc" {
 				got = c.O.Of(val).String()
-				good = (strings.HasPrefix(got, "call:mux.buildOption:") && strings.HasSuffix(got, ".recoverFunc")) || got == "field<recoverFunc>(extract<0>(call<mux.buildOption>(param:o)))"
+				// the recoverFunc field of the *options value a call returned (buildOption or a wrapper of it)
+				if u, isU := val.(*ssa.UnOp); isU {
+					if fa, isFA := u.X.(*ssa.FieldAddr); isFA && an.FieldName(fa.X.Type(), fa.Field) == "recoverFunc" {
+						base := fa.X
+						if ex, isEx := base.(*ssa.Extract); isEx {
+							base = ex.Tuple
+						}
+						if call, isCall := base.(*ssa.Call); isCall {
+							reach := an.NewGraph(c.P).Reach([]*ssa.Function{an.StaticCallee(&call.Call)}, nil)
+							_, good = reach[c.P.MustFunc("mux.buildOption")]
+						}
+					}
+				}
 			}
 		})
 		c.R.Add(rule, key, "store:recoverFunc=buildOption(o).recoverFunc", c.P.Pos(f.Pos()), good, ifelse(good, "the configured function is stored ("+got+")", "the constructor stores "+ifelse(got == "", "nothing", got)+" as recovery function: the option is lost"))
@@ -455,40 +481,64 @@ func ruleHeadWriter(c *Ctx, rule string) {
 	wrapT := lookupNamed(c.A.MuxPkg, "headResponse")
 	// the wrapper is installed exactly on served HEAD requests and wraps the original writer
 	installed := false
-	an.AllInstrs(serve, func(in ssa.Instruction) {
-		al, ok := in.(*ssa.Alloc)
-		if !ok || !isNamed(al.Type().(*types.Pointer).Elem(), wrapT) {
-			return
+	headFuncs := []*ssa.Function{serve}
+	for fn := range an.NewGraph(c.P).Reach([]*ssa.Function{serve}, func(_ *ssa.Function, e an.Edge) bool { return e.Kind == "static" }) {
+		if fn != serve && strings.HasPrefix(an.FuncKey(fn), "mux.") {
+			headFuncs = append(headFuncs, fn)
 		}
-		installed = true
-		domHead := an.DominatedByEdge(in, func(b *ssa.BasicBlock, succ int) bool {
-			return edgeHas(b, succ, func(cond ssa.Value, truth bool) bool {
-				x, k, eq, ok := an.CondAtom(cond)
-				return ok && strings.HasSuffix(an.AP(x), ".Method") && an.ConstKey(k) == `"HEAD"` && eq == truth
-			})
-		})
-		t := c.O.Of(al)
-		embeds := ""
-		for i, n := range t.Names {
-			if n == "ResponseWriter" {
-				embeds = t.Args[i].String()
+	}
+	for _, hf := range headFuncs {
+		hf := hf
+		an.AllInstrs(hf, func(in ssa.Instruction) {
+			al, ok := in.(*ssa.Alloc)
+			if !ok || !isNamed(al.Type().(*types.Pointer).Elem(), wrapT) {
+				return
 			}
-		}
-		good := domHead && (embeds == "cell<w>()" || strings.Contains(embeds, "param:w") || strings.Contains(embeds, "cell:w"))
-		c.R.Add(rule, c.fk(serve), "wrap:headResponse{ResponseWriter:w}/on:Method==HEAD", c.pos(in), good, ifelse(good, "on HEAD the handler gets a wrapper around the original writer", fmt.Sprintf("the HEAD wrapper is installed wrongly (behind Method==HEAD: %v, embeds %s)", domHead, embeds)))
-		// and the wrapper reaches the CallFunc: it is stored into the writer cell that the call reads
-		stored := false
-		for _, r := range *al.Referrers() {
-			if mi, ok := r.(*ssa.MakeInterface); ok {
+			installed = true
+			headEdge := func(b *ssa.BasicBlock, succ int) bool {
+				return edgeHas(b, succ, func(cond ssa.Value, truth bool) bool {
+					x, k, eq, ok := an.CondAtom(cond)
+					return ok && strings.HasSuffix(an.AP(x), ".Method") && an.ConstKey(k) == `"HEAD"` && eq == truth
+				})
+			}
+			domHead := an.DominatedByEdgeDeep([]*ssa.Function{serve}, in, headEdge, deepDefault)
+			// the wrapper is not used on other methods either: no alloc reachable with Method != HEAD is implied by dominance
+			t := c.O.Of(al)
+			embeds := ""
+			for i, n := range t.Names {
+				if n == "ResponseWriter" {
+					embeds = t.Args[i].String()
+				}
+			}
+			okEmbed := embeds == "cell<w>()" || strings.Contains(embeds, "param:w") || strings.Contains(embeds, "cell:w") || strings.HasPrefix(embeds, "param:")
+			good := domHead && okEmbed
+			c.R.Add(rule, c.fk(hf), "wrap:headResponse{ResponseWriter:w}/on:Method==HEAD", c.pos(in), good, ifelse(good, "on HEAD the handler gets a wrapper around the original writer", fmt.Sprintf("the HEAD wrapper is installed wrongly (behind Method==HEAD: %v, embeds %s)", domHead, embeds)))
+			// the wrapper reaches the CallFunc: stored into the writer cell, or returned to the caller that stores it
+			handed := false
+			for _, r := range *al.Referrers() {
+				mi, ok := r.(*ssa.MakeInterface)
+				if !ok {
+					if ret, isRet := r.(*ssa.Return); isRet && len(ret.Results) > 0 {
+						handed = true
+					}
+					continue
+				}
 				for _, rr := range *mi.Referrers() {
-					if st, ok := rr.(*ssa.Store); ok && st.Val == ssa.Value(mi) {
-						stored = true
+					switch y := rr.(type) {
+					case *ssa.Store:
+						if y.Val == ssa.Value(mi) {
+							handed = true
+						}
+					case *ssa.Return:
+						handed = true
+					case *ssa.Phi:
+						handed = true
 					}
 				}
 			}
-		}
-		c.R.Add(rule, c.fk(serve), "wrap:passed-to-handler", c.pos(in), stored, ifelse(stored, "the wrapper replaces the writer passed to the handler", "the HEAD wrapper is built but not handed to the handler"))
-	})
+			c.R.Add(rule, c.fk(hf), "wrap:passed-to-handler", c.pos(in), handed, ifelse(handed, "the wrapper replaces the writer passed to the handler", "the HEAD wrapper is built but not handed to the handler"))
+		})
+	}
 	if !installed {
 		c.R.Add(rule, c.fk(serve), "wrap:headResponse{ResponseWriter:w}/on:Method==HEAD", c.P.Pos(serve.Pos()), false, "serveContext no longer wraps the writer for HEAD requests: the GET body is delivered")
 	}
@@ -500,16 +550,22 @@ func ruleHeadWriter(c *Ctx, rule string) {
 		}
 	})
 	c.R.Add(rule, c.fk(write), "write:swallows-body", c.P.Pos(write.Pos()), !forwards, ifelse(!forwards, "the wrapper's Write never reaches the embedded writer's Write/WriteHeader", "the HEAD wrapper forwards body bytes to the client"))
+	bytesParam := "param:?"
+	for _, p := range write.Params {
+		if _, isSlice := p.Type().Underlying().(*types.Slice); isSlice {
+			bytesParam = "param:" + p.Name()
+		}
+	}
 	for _, r := range an.Returns(write) {
 		n := c.O.Of(r.Results[0]).String()
-		good := n == "call<builtin:len>(param:bs)" && an.IsNilConst(r.Results[1])
+		good := n == "call<builtin:len>("+bytesParam+")" && an.IsNilConst(r.Results[1])
 		c.R.Add(rule, c.fk(write), "write:returns(len(arg),nil)", c.pos(r), good, ifelse(good, "reports all bytes as written", "the wrapper's Write returns ("+n+", "+c.O.Of(r.Results[1]).String()+"): handlers see short writes or errors on HEAD"))
 	}
 	counted, lengthSet := false, false
 	an.AllInstrs(write, func(in ssa.Instruction) {
 		if base, field, val, ok := fieldStoreAny(in); ok && base == "recv" && field == "size" {
 			t := c.O.Of(val).String()
-			counted = t == "binop<+>(recv.size, call<builtin:len>(param:bs))" && len(write.Blocks) == 1
+			counted = (t == "binop<+>(recv.size, call<builtin:len>("+bytesParam+"))" || t == "binop<+>(call<builtin:len>("+bytesParam+"), recv.size)") && len(write.Blocks) == 1
 		}
 		if call, ok := calleeNamed(in, "net/http.Header.Set"); ok {
 			n, _ := strConst(call.Args[1])
